@@ -57,8 +57,8 @@ class RefDisplay(VideoPlugin):
         self.canvas = []            # list of bytearray, one per pixel row
         self.text = []              # list of lists of unicode, one per text row
         self.attrs = []             # list of lists of int
-        # provenance of each text row: which kind of signal touched it last
-        self.row_tag = []
+        # provenance of each text cell: which kind of signal touched it last
+        self.tags = []
         # other state
         self.palette = None
         self.pack_pixels = None
@@ -102,7 +102,19 @@ class RefDisplay(VideoPlugin):
             self.canvas = [bytearray(r) for r in pixel_rows]
         if text_rows is not None and len(text_rows) == len(self.text):
             self.text = [list(r) for r in text_rows]
-        self.row_tag = ['resync'] * len(self.row_tag)
+        self.tags = [['resync'] * len(r) for r in self.tags]
+
+    def tag_at(self, row0, col0):
+        """Kind of signal that last touched text cell (0-based)."""
+        try:
+            return self.tags[row0][col0]
+        except IndexError:
+            return 'outside'
+
+    @staticmethod
+    def _moved(tags, how):
+        """Provenance of a row moved by a scroll: 'vacated' is sticky, anything else becomes 'moved'."""
+        return [t if t.endswith('vacated') else how for t in tags]
 
     def _anomaly(self, what):
         if len(self.anomalies) < 20:
@@ -120,7 +132,7 @@ class RefDisplay(VideoPlugin):
         self.canvas = [bytearray(canvas_width) for _ in range(canvas_height)]
         self.text = [[u' '] * text_width for _ in range(text_height)]
         self.attrs = [[0] * text_width for _ in range(text_height)]
-        self.row_tag = ['set_mode'] * text_height
+        self.tags = [['set_mode'] * text_width for _ in range(text_height)]
         # standard cursor
         self.cursor_width = self.font_width
         self.cursor_shape = (0, self.font_height - 1)
@@ -164,7 +176,7 @@ class RefDisplay(VideoPlugin):
         for r in range(max(1, start), min(self.mode[2], stop) + 1):
             self.text[r - 1] = [u' '] * self.mode[3]
             self.attrs[r - 1] = [back_attr] * self.mode[3]
-            self.row_tag[r - 1] = 'clear_rows'
+            self.tags[r - 1] = ['clear_rows'] * self.mode[3]
 
     def scroll(self, direction, from_line, scroll_height, back_attr):
         """Scroll text rows from_line..scroll_height (1-based, inclusive) by one; -1 is up."""
@@ -192,10 +204,10 @@ class RefDisplay(VideoPlugin):
             a, b = from_line - 1, scroll_height - 1
             self.text[a:b] = self.text[a + 1:b + 1]
             self.attrs[a:b] = self.attrs[a + 1:b + 1]
-            self.row_tag[a:b] = self.row_tag[a + 1:b + 1]
+            self.tags[a:b] = [self._moved(t, 'moved-by-scroll') for t in self.tags[a + 1:b + 1]]
             self.text[b] = [u' '] * self.mode[3]
             self.attrs[b] = [back_attr] * self.mode[3]
-            self.row_tag[b] = 'scroll-up-vacated'
+            self.tags[b] = ['scroll-up-vacated'] * self.mode[3]
         else:
             # rows that fit (the last text row may be cut short by the canvas height)
             moved = [bytearray(r) for r in self.canvas[hi_y0:hi_y1]]
@@ -206,10 +218,10 @@ class RefDisplay(VideoPlugin):
             a, b = from_line - 1, scroll_height - 1
             self.text[a + 1:b + 1] = self.text[a:b]
             self.attrs[a + 1:b + 1] = self.attrs[a:b]
-            self.row_tag[a + 1:b + 1] = self.row_tag[a:b]
+            self.tags[a + 1:b + 1] = [self._moved(t, 'moved-by-scroll') for t in self.tags[a:b]]
             self.text[a] = [u' '] * self.mode[3]
             self.attrs[a] = [back_attr] * self.mode[3]
-            self.row_tag[a] = 'scroll-down-vacated'
+            self.tags[a] = ['scroll-down-vacated'] * self.mode[3]
 
     def update(self, row, col, unicode_matrix, attr_matrix, y0, x0, sprite):
         """Put text and pixels at a given position."""
@@ -217,6 +229,9 @@ class RefDisplay(VideoPlugin):
             self._anomaly('update before set_mode')
             return
         # text part (what the text front ends show)
+        full = (row == 1 and col == 1 and len(unicode_matrix) == self.mode[2]
+                and all(len(_r) == self.mode[3] for _r in unicode_matrix))
+        tag = 'full-update' if full else 'update'
         for i, (trow, arow) in enumerate(zip(unicode_matrix, attr_matrix)):
             r = row - 1 + i
             if not 0 <= r < self.mode[2]:
@@ -229,7 +244,7 @@ class RefDisplay(VideoPlugin):
                     continue
                 self.text[r][c] = ch
                 self.attrs[r][c] = at
-            self.row_tag[r] = 'update'
+                self.tags[r][c] = tag
         # pixel part (what the graphical front ends show)
         if not sprite:
             return
